@@ -432,7 +432,7 @@ def widen(rng, ty, depth=2):
         if up:
             return ["model", rng.choice(up)]
     other = [rng.choice([a for a in G.ATOMS if a != k])]
-    return ["union", [ty, other]] if k != "union" else ty
+    return ["union", rng.choice([[ty, other], [other, ty]])] if k != "union" else ["opt", ty]
 
 
 def related_pair(rng, depth):
@@ -468,7 +468,9 @@ def gen_sub_cases(ctx):
         for _ in range(20000):
             pairs.append(related_pair(rng, 2))
     # the F12 pair and its relatives are always present
-    pairs += [(["qhash"], ["hash"]), (["qhash"], ["nes"]), (["hash"], ["nes"]), (["mime"], ["nes"]), (["hash"], ["qhash"]), (["list", ["mime"]], ["list", ["nes"]])]
+    pairs += [(["qhash"], ["hash"]), (["qhash"], ["nes"]), (["hash"], ["nes"]), (["mime"], ["nes"]), (["hash"], ["qhash"]), (["list", ["mime"]], ["list", ["nes"]]),
+              (["nes"], ["union", [["qty"], ["nes"]]]), (["nes"], ["union", [["unit"], ["nes"]]]), (["str"], ["opt", ["union", [["qty"], ["str"]]]]),
+              (["list", ["mime"]], ["list", ["union", [["unit"], ["dur"], ["nes"]]]])]
     chunk = 100 if ctx.quick else 400
     for i in range(0, len(pairs), chunk):
         cases.append(dict(kind="sub", fam=fam, pairs=[list(p) for p in pairs[i:i + chunk]], seed=rng.randrange(1 << 30)))
@@ -619,6 +621,20 @@ def gen_anc_cases(ctx, names):
     return [dict(kind="anc", schema=n, seed=ctx.rng.randrange(1 << 30), n=8 if ctx.quick else 25, depth=2) for n in names for _ in range(per)]
 
 
+_crash_seen = set()
+
+
+def report_crashes(ctx):
+    """A library parser that raises something other than a validation error aborts the whole
+    validation (no Union fall-through): child-accepts / parent-rejects for `nes < union(qty,nes)`."""
+    for k in G.OPAQUE:
+        for s, n in sorted(C12.NF.get(k, {}).items()):
+            if n is False and (k, s) not in _crash_seen:
+                _crash_seen.add((k, s))
+                if sum(1 for x in _crash_seen if x[0] == k) <= 3:
+                    ctx.oracle_hit(dict(kind="crash", type=k, input=s), dict(kind="opaque-parser-raises", type=k, input=s, error=G.NF_ERRORS.get((k, s), "")), group="accepts")
+
+
 def run(ctx):
     ctx.rule = ("cases: (sub) ordered pairs of grammar types over a class table of nested schemas (related pairs built by narrowing / widening), real is_subtype vs model, "
                 "with a witness search for every accepted pair; (acc) single-field validation on a boundary corpus per type; (ovr) grandparent/parent/child families with an "
@@ -631,6 +647,7 @@ def run(ctx):
     ]
     C12.load_nf(ctx)
     ctx.oracle_hits[:] = [h for h in ctx.oracle_hits if h.get("group") != "normal-forms"]  # C12's business
+    report_crashes(ctx)
     corpus = core.load_corpus(ID)
     sub = [c for c in corpus if c["kind"] == "sub"] + gen_sub_cases(ctx)
     ctx.correspond("is_subtype", MOD, sub, lines, "drv_cod", compare=compare, timeout=300)
@@ -670,6 +687,8 @@ def signature(case, detail):
     if not isinstance(detail, dict):
         return "%s:%s" % (ID, str(detail)[:40])
     kind = detail.get("kind")
+    if kind == "opaque-parser-raises":
+        return "%s:%s:%s" % (ID, kind, detail.get("type"))
     if kind == "subtype-unsound":
         a, b = detail.get("sub"), detail.get("base")
         if a == ["qhash"] and b == ["hash"]:
@@ -703,6 +722,8 @@ def shrink(ctx, case, detail):
     if not isinstance(detail, dict):
         return case, detail
     kind = detail.get("kind")
+    if kind == "opaque-parser-raises":
+        return "%s:%s:%s" % (ID, kind, detail.get("type"))
     if kind == "subtype-unsound":
         # smallest pair of sub-terms that is still accepted by is_subtype and has a witness
         a, b = detail["sub"], detail["base"]
